@@ -110,8 +110,8 @@ func runC06(c *Ctx) {
 			mm := model.NewMultipartModel()
 			objs := map[string][]byte{} // model of stored objects (nil = absent)
 			objMeta := map[string]map[string]string{}
-			var ids []string    // upload ids by index
-			var idKey []string  // key of each upload
+			var ids []string   // upload ids by index
+			var idKey []string // key of each upload
 			var trace []mpStep
 			var sigb strings.Builder
 			sigb.WriteString(j.kind)
@@ -357,7 +357,10 @@ func runC06(c *Ctx) {
 }
 
 // genPartList produces a part list of a random kind for a pending upload.
-func genPartList(rng interface{ Intn(int) int; Perm(int) []int }, u *model.Upload) ([]model.CompletePart, string) {
+func genPartList(rng interface {
+	Intn(int) int
+	Perm(int) []int
+}, u *model.Upload) ([]model.CompletePart, string) {
 	ns := u.PartNumbers()
 	mk := func(n int) model.CompletePart {
 		et := u.Parts[n].ETag
